@@ -377,6 +377,319 @@ def run_C12(ctx):
     return res
 
 
+
+# ================================================================== C13
+def count_samples(field):
+    """number of samples in one channel of a concrete in=/out= field"""
+    if field == '':
+        return 0
+    n = 0
+    for tok in field.split(','):
+        n += int(tok.split('*')[0]) if '*' in tok else 1
+    return n
+
+
+def chan_lens(field):
+    if field == '~':
+        return []
+    return [count_samples(c) for c in field.split(';')]
+
+
+def expected_pib_error(nch, min_in, min_out, inl, outl, mask):
+    """The contract of process_into_buffer: first violated clause (mask length is checked first)."""
+    if mask is not None and len(mask) != nch:
+        return ['WrongNumberOfMaskChannels', str(nch), str(len(mask))]
+    m = mask if mask is not None else [True] * nch
+    if len(inl) != nch:
+        return ['WrongNumberOfInputChannels', str(nch), str(len(inl))]
+    for c in range(nch):
+        if m[c] and inl[c] < min_in:
+            return ['InsufficientInputBufferSize', str(c), str(min_in), str(inl[c])]
+    if len(outl) != nch:
+        return ['WrongNumberOfOutputChannels', str(nch), str(len(outl))]
+    for c in range(nch):
+        if m[c] and outl[c] < min_out:
+            return ['InsufficientOutputBufferSize', str(c), str(min_out), str(outl[c])]
+    return None
+
+
+def malformed_op(r, nch):
+    """one malformed process_into_buffer call in the symbolic spec language"""
+    shape = r.below(9)
+    mask = None
+    ins = ['next'] * nch
+    outs = ['next'] * nch
+    if shape == 0:
+        ins = ['next'] * (nch + r.choice([1, 2]))
+    elif shape == 1:
+        ins = ['next'] * (nch - 1)
+    elif shape == 2:
+        outs = ['next'] * (nch + 1)
+    elif shape == 3:
+        outs = ['next'] * (nch - 1)
+    elif shape == 4:
+        mask = "".join(r.choice("01") for _ in range(nch + r.choice([1, 3])))
+    elif shape == 5:
+        mask = "".join(r.choice("01") for _ in range(nch - 1))
+    elif shape == 6:
+        c = r.below(nch)
+        ins[c] = r.choice(['next-1', 'abs:0', 'next-2'])
+    elif shape == 7:
+        c = r.below(nch)
+        outs[c] = r.choice(['next-1', 'abs:0', 'next-3'])
+    else:
+        c = r.below(nch)
+        ins[c] = 'next-1'
+        outs[r.below(nch)] = 'next-1'
+        if r.chance(0.5):
+            mask = "".join(r.choice("01") for _ in range(nch))
+    mstr = '-' if mask is None else (mask if mask != '' else '~')
+    il = ";".join(ins) if ins else '~'
+    ol = ";".join(outs) if outs else '~'
+    return "PIB mask=%s inlen=%s outlen=%s sig=rand:%d" % (mstr, il, ol, r.below(10000))
+
+
+def run_C13(ctx):
+    rng, tier = ctx.rng, ctx.tier
+    res = new_results("malformed stream: for each of the seven types a valid prefix, then process_into_buffer calls with each malformed "
+                      "shape (too many/few input or output channels, mask too long/short/empty, an active channel short by 1..all), "
+                      "then valid calls; a twin history without the malformed calls must produce bit-identical outputs; invalid "
+                      "constructor arguments; each result is judged against the documented contract and against the bit-exact model",
+                      ['FastFixedIn', 'FastFixedOut', 'SincFixedIn', 'SincFixedOut', 'FftFixedIn', 'FftFixedOut', 'FftFixedInOut', 'constructors'])
+    cases = []
+    n = 21 if ctx.quick else 280
+    for i in range(n):
+        r = rng.fork("c13_%d" % i)
+        kind = gens.ALL[i % 7]
+        if kind in gens.ASYNC:
+            cfg = async_cfg(r, kind, 'quick', nch=r.choice([1, 2, 3]))
+            cfg['chunk'] = max(4, min(cfg['chunk'], 64))
+        else:
+            cfg = fft_cfg(r, kind, 'quick', nch=r.choice([1, 2, 3]))
+        nch = cfg['nch']
+        head = ["T ty=%s" % cfg['ty'], new_line(cfg)]
+        a, b, ann = list(head), list(head), []
+        sig = "rand:%d" % r.below(99999)
+        valid = "PIB mask=- inlen=%s outlen=%s sig=%s" % (";".join(['next'] * nch), ";".join(['max'] * nch), sig)
+        k = 3 + r.below(4 if ctx.quick else 10)
+        for j in range(k):
+            if r.chance(0.4):
+                a.append(valid); b.append(valid); ann.append('valid')
+            t = r.below(10)
+            if t < 7:
+                a.append(malformed_op(r, nch)); ann.append('bad')
+            elif t < 8 and nch > 1:
+                a.append("PROCESS mask=%s inlen=%s sig=%s" % ("1" * (nch - 1), ";".join(['next'] * nch), sig)); ann.append('badprocess')
+            elif t < 9:
+                a.append("PARTIAL mask=%s inlen=none" % ("1" * (nch + 2))); ann.append('badprocess')
+            else:
+                a.append("PROCESS mask=- inlen=%s sig=%s" % (";".join(['next'] * (nch + 1)), sig)); ann.append('badprocess')
+        a.append(valid); b.append(valid); ann.append('valid')
+        a.append(valid); b.append(valid); ann.append('valid')
+        ca = Case("mal_%03d_%s_a" % (i, kind), a, {'cfg': cfg, 'ann': ann})
+        cb = Case("mal_%03d_%s_b" % (i, kind), b, {'cfg': cfg, 'is_twin': True})
+        ca.meta['twin'] = cb
+        cases += [ca, cb]
+    # invalid constructor arguments
+    bad_ctor = []
+    for i in range(14 if ctx.quick else 60):
+        r = rng.fork("ctor%d" % i)
+        kind = gens.ALL[i % 7]
+        if kind in gens.ASYNC:
+            cfg = async_cfg(r, kind, 'quick', nch=1)
+            cfg['chunk'] = 8
+            which = r.below(6)
+            if which == 0:
+                cfg['ratio'] = r.choice([0.0, -0.0, -1.0, -1e-300, NAN, INF, -INF])
+                exp = 'InvalidRatio'
+            elif which == 1:
+                cfg['maxrel'] = r.choice([0.5, 0.0, -3.0, 0.9999999999999999, NAN, INF])
+                exp = 'InvalidRelativeRatio'
+            elif which == 2:
+                cfg['ratio'], cfg['maxrel'] = 1e300, 1e10
+                exp = 'InvalidRelativeRatio'
+            elif which == 3:
+                cfg['ratio'], cfg['maxrel'] = 1e-300, 1e10
+                exp = 'InvalidRelativeRatio'
+            else:
+                exp = 'ok'
+        else:
+            cfg = fft_cfg(r, kind, 'quick', nch=1)
+            which = r.below(4)
+            if which == 0:
+                cfg['rin'] = 0
+                exp = 'InvalidSampleRate'
+            elif which == 1:
+                cfg['rout'] = 0
+                exp = 'InvalidSampleRate'
+            elif which == 2:
+                cfg['rin'] = cfg['rout'] = 0
+                exp = 'InvalidSampleRate'
+            else:
+                exp = 'ok'
+        cases.append(Case("ctor_%03d_%s" % (i, kind), ["T ty=%s" % cfg['ty'], new_line(cfg)],
+                          {'cfg': cfg, 'component': 'constructors', 'ctor_expect': exp}))
+
+    def judge(c):
+        out = []
+        tr = c.trace
+        if 'ctor_expect' in c.meta:
+            exp = c.meta['ctor_expect']
+            got = tr['new'] or 'nothing'
+            if exp == 'ok' and got != 'ok':
+                out.append(fail(c, -1, "constructor rejected valid arguments: %s" % got))
+            if exp != 'ok' and not got.startswith('err ' + exp):
+                out.append(fail(c, -1, "constructor with invalid arguments answered %r, documented error is %s" % (got, exp)))
+            return out
+        if c.meta.get('is_twin'):
+            return out
+        if tr['new'] != 'ok':
+            return [fail(c, -1, "constructor failed on valid arguments: %s" % tr['new'])]
+        ann = c.meta['ann']
+        prev = tr['init']
+        valid_a = []
+        for i, s in enumerate(tr['steps']):
+            kind = ann[i] if i < len(ann) else '?'
+            if s.res in FATAL:
+                out.append(fail(c, i, "%s call ended with %s instead of an Err" % (kind, s.res)))
+                return out
+            if kind == 'bad':
+                nch, in_next, out_next = prev.g[5], prev.g[1], prev.g[3]
+                inl, outl = chan_lens(s.kv['in']), chan_lens(s.kv['out'])
+                mk = s.kv['mask']
+                mask = None if mk == '-' else ([] if mk == '~' else [ch == '1' for ch in mk])
+                exp = expected_pib_error(nch, in_next, out_next, inl, outl, mask)
+                if exp is None:
+                    pass
+                elif s.res != 'err' or s.fields != exp:
+                    out.append(fail(c, i, "malformed call answered %s %s, contract says Err %s" % (s.res, s.fields, exp)))
+                if s.res == 'err':
+                    if state_sig(s) != state_sig(prev):
+                        out.append(fail(c, i, "a rejected call changed getters / control state / internal buffers"))
+            elif kind == 'badprocess':
+                if s.res != 'err':
+                    out.append(fail(c, i, "process/partial with malformed arguments answered %s" % s.res))
+                elif state_sig(s) != state_sig(prev):
+                    out.append(fail(c, i, "a rejected process()/process_partial() changed the resampler"))
+            elif kind == 'valid':
+                valid_a.append(s)
+            prev = s
+        b = c.meta['twin']
+        if not getattr(b, 'trace', None):
+            b.trace = parse_trace(b.impl_path, b.hist_path)
+        for j, (sa, sb) in enumerate(zip(valid_a, b.trace['steps'])):
+            if (sa.res, sa.fields, sa.outs, sa.g) != (sb.res, sb.fields, sb.outs, sb.g):
+                out.append(fail(c, j, "valid call #%d differs from the history without the rejected calls" % j))
+                break
+        return out
+
+    execute(ctx, cases, res, judge)
+    res['dist'].update(collections.Counter(a for c in cases for a in c.meta.get('ann', [])))
+    return res
+
+
+
+# ================================================================== C16
+def run_C16(ctx):
+    rng, tier = ctx.rng, ctx.tier
+    res = new_results("twin histories on all seven types: (A) process / process_partial(_into_buffer)(Some k | None), half of them through "
+                      "the VecResampler object-safe trait, (B) the same stream through process_into_buffer with explicit zero padding "
+                      "and buffers of output_frames_next frames; outputs, counts and the whole state after every call must be equal",
+                      ['FastFixedIn', 'FastFixedOut', 'SincFixedIn', 'SincFixedOut', 'FftFixedIn', 'FftFixedOut', 'FftFixedInOut', 'wrappers'])
+    cases = []
+    n = 28 if ctx.quick else 350
+    for i in range(n):
+        r = rng.fork("c16_%d" % i)
+        kind = gens.ALL[i % 7]
+        if kind in gens.ASYNC:
+            cfg = async_cfg(r, kind, 'quick')
+            cfg['chunk'] = max(4, min(cfg['chunk'], 64))
+        else:
+            cfg = fft_cfg(r, kind, 'quick')
+        nch = cfg['nch']
+        head = ["T ty=%s" % cfg['ty'], new_line(cfg)]
+        a, b = list(head), list(head)
+        sig = r.choice(["rand:%d" % r.below(99999), "ramp", "sine:%s:%s" % (f64hex(0.05), f64hex(0.3))])
+        mask = None
+        if r.chance(0.4):
+            mask = "".join(r.choice("01") for _ in range(nch))
+        mstr = mask if mask else '-'
+        act = [(mask is None or mask[c] == '1') for c in range(nch)]
+        k = 3 + r.below(5 if ctx.quick else 12)
+        for j in range(k):
+            via = " via=vec" if r.chance(0.5) else ""
+            t = r.below(6)
+            il_full = ";".join('next' if act[c] else r.choice(['abs:0', 'next']) for c in range(nch))
+            ol_next = ";".join('next' if act[c] else 'abs:0' for c in range(nch))
+            if t < 2:
+                a.append("PROCESS mask=%s inlen=%s sig=%s%s" % (mstr, il_full, sig, via))
+                b.append("PIB mask=%s inlen=%s outlen=%s sig=%s" % (mstr, il_full, ol_next, sig))
+            elif t < 4:
+                ks = [(r.choice(['c1:next-1', 'c1:next-2', 'c1:next-7', 'abs:1', 'next']) if act[c] else r.choice(['abs:0', 'c1:next-1']))
+                      for c in range(nch)]
+                a.append("PARTIAL mask=%s inlen=%s sig=%s%s" % (mstr, ";".join(ks), sig, via))
+                b.append("PIB mask=%s inlen=%s outlen=%s sig=pad@%s@%s adv=%s" % (mstr, ";".join(['next'] * nch), ol_next, "|".join(ks), sig, "|".join(ks)))
+            elif t < 5:
+                a.append("PARTIAL mask=%s inlen=none%s" % (mstr, via))
+                b.append("PIB mask=%s inlen=%s outlen=%s sig=zero adv=abs:0" % (mstr, ";".join(['next'] * nch), ol_next))
+            else:
+                ks = [(r.choice(['c1:next-1', 'c1:next-3', 'abs:2']) if act[c] else r.choice(['abs:0', 'c1:next-1'])) for c in range(nch)]
+                ol = ";".join('max' if act[c] else 'abs:0' for c in range(nch))
+                a.append("PARTIALINTO mask=%s inlen=%s outlen=%s sig=%s%s" % (mstr, ";".join(ks), ol, sig, via))
+                b.append("PIB mask=%s inlen=%s outlen=%s sig=pad@%s@%s adv=%s" % (mstr, ";".join(['next'] * nch), ol, "|".join(ks), sig, "|".join(ks)))
+        ca = Case("wr_%03d_%s_a" % (i, kind), a, {'cfg': cfg, 'act': act})
+        cb = Case("wr_%03d_%s_b" % (i, kind), b, {'cfg': cfg, 'is_twin': True})
+        ca.meta['twin'] = cb
+        cases += [ca, cb]
+
+    def judge(c):
+        out = []
+        if c.meta.get('is_twin'):
+            return out
+        b = c.meta['twin']
+        if not getattr(b, 'trace', None):
+            b.trace = parse_trace(b.impl_path, b.hist_path)
+        if c.trace['new'] != 'ok':
+            return [fail(c, -1, "constructor failed: %s" % c.trace['new'])]
+        act = c.meta['act']
+        for i, (sa, sb) in enumerate(zip(c.trace['steps'], b.trace['steps'])):
+            if sa.res in FATAL or sb.res in FATAL:
+                if sa.res != sb.res:
+                    out.append(fail(c, i, "wrapper ended with %s, core call with %s" % (sa.res, sb.res)))
+                break
+            if sb.res != 'counts':
+                if sa.res != sb.res or sa.fields != sb.fields:
+                    out.append(fail(c, i, "wrapper result %s %s, core result %s %s" % (sa.res, sa.fields, sb.res, sb.fields)))
+                continue
+            nout = int(sb.fields[1])
+            if sa.res == 'vecs':
+                for ch, v in enumerate(sa.outs):
+                    got = expand_hex(v)
+                    want = expand_hex(sb.outs[ch])[:nout] if act[ch] else []
+                    if got != want:
+                        out.append(fail(c, i, "channel %d: wrapper returned %d frames, core call wrote %d (values %s)" %
+                                        (ch, len(got), len(want), 'equal prefix' if got[:len(want)] == want[:len(got)] else 'differ')))
+                        break
+            elif sa.res == 'counts':
+                if sa.fields != sb.fields or [expand_hex(v) for v in sa.outs] != [expand_hex(v) for v in sb.outs]:
+                    out.append(fail(c, i, "process_partial_into_buffer differs from the zero-padded core call"))
+            else:
+                out.append(fail(c, i, "wrapper failed (%s %s) where the core call succeeded" % (sa.res, sa.fields)))
+            if state_sig(sa) != state_sig(sb):
+                out.append(fail(c, i, "state after the wrapper call differs from the state after the core call"))
+            if out:
+                break
+        return out
+
+    execute(ctx, cases, res, judge)
+    return res
+
+
+def gen_forwarding(rep):
+    f = rep.get('vec_forwarding', {})
+    return bool(f.get('ok')), "; ".join(f.get('problems', [])) or "all %d methods of the VecResampler blanket impl forward unchanged" % len(f.get('methods', []))
+
+
 PROPS = {
     'C08': {
         'run': run_C08,
@@ -399,5 +712,24 @@ PROPS = {
                         '1/max in the relative bound is the binary64 quotient',
                         'Flocq BinarySingleNaN models IEEE-754 binary64 round-to-nearest-even arithmetic and comparisons'],
         'trusted_base': ['Flocq 4.1 (Bdiv_correct, Bmult_correct, Bleb_correct, round_le) and Coq Reals axioms'],
+    },
+    'C13': {
+        'run': run_C13,
+        'pinned': ['C13_validate_ok_iff_Z', 'C13_validate_first_error_Z', 'C13_validate_total_Z', 'C13_pib_err_iff',
+                   'C13_err_state_equal', 'C13_no_spurious_err', 'C13_ctor_invalid_ratio_B64', 'C13_ctor_invalid_ratio_sinc_B64',
+                   'C13_ctor_invalid_maxrel_B64', 'C13_ctor_zero_rate_Z'],
+        'unproved': ['the stored channel_mask is overwritten by a rejected call with a mask of the right length; it is rewritten at the start '
+                     'of every call and never read elsewhere, so this is unobservable (argued, compared on every trace, not a theorem)'],
+        'assumptions': ['the model returns the unchanged state on Err by construction; that the implementation does too is what the '
+                        'correspondence compares after every rejected call (getters, control fields, all internal buffers)'],
+        'trusted_base': ['Flocq + Reals axioms only for the constructor theorems; the validate/process theorems are closed under the global context'],
+    },
+    'C16': {
+        'run': run_C16,
+        'pinned': ['C16_process_eq', 'C16_alloc_out', 'C16_partial_none_eq', 'C16_partial_some_eq', 'C16_partial_eq', 'C16_padding'],
+        'gen_obligations': {'vec-forwarding': gen_forwarding},
+        'unproved': ['independence of the written prefix from the initial content of a larger output buffer (compared on every trace, not a theorem)'],
+        'assumptions': ['the wrappers of the model are a transcription of lib.rs:75-195; the tie is the bit-exact correspondence on wrapper calls'],
+        'trusted_base': ['closed under the global context (no axioms)'],
     },
 }
